@@ -2255,6 +2255,30 @@ fn gen_c17(rng: &mut Rng, ops: &mut Vec<String>, stats: &mut Stats) {
     let m = rng.range(6, 30);
     let lead4 = *rng.pick(&c4);
     let lead6 = *rng.pick(&c6);
+    if mode != "ip6" && rng.chance(1, 3) {
+        // directed: a leading address and a rival close enough to block it; then one of the rival's
+        // voters changes its vote to a third address - the PONG that makes the majority clear does
+        // not itself name the majority address
+        stats.bump("gen.c17.directed-blocked-then-vote-moves-away");
+        let lead_n = vmin.max(3);
+        let rival_n = ((lead_n as f64) * 0.8).round() as u64;
+        let rival4 = *c4.iter().find(|c| **c != lead4).unwrap();
+        let third4 = *c4.iter().find(|c| **c != lead4 && **c != rival4).unwrap();
+        // every ping that is still outstanding is answered or failed first
+        for _ in 0..n + 2 {
+            ops.push("sfail A #p".into());
+        }
+        let base = 500 + rng.range(0, 50) * 20;
+        for i in 0..lead_n + rival_n {
+            ops.push(format!("sest A k{}:1:4:0 = o", base + i));
+            ops.push(format!("sresp A #p ok pong +0 {}", if i < lead_n { lead4 } else { rival4 }));
+        }
+        let mover = base + lead_n + rng.below(rival_n);
+        ops.push(format!("srm A k{}", mover));
+        ops.push(format!("sest A k{}:1:4:0 = o", mover));
+        ops.push(format!("sresp A #p ok pong +0 {}", third4));
+        ops.push("slocal A".into());
+    }
     for _ in 0..m {
         let c = rng.below(100);
         if c < 70 {
